@@ -253,3 +253,18 @@ PROPS['C16'] = dict(
     assumptions=['input space is sampled per equivalence class: exploration, not proof; encoding/json, protobuf and base64 are trusted beyond the sampled inputs',
                  'JSON cannot distinguish nil from empty byte slices; values are compared up to that'],
 )
+
+PROPS['C20'] = dict(
+    level='model_checking',
+    design=[D('MCPubSubDecorators', 'MCPubSubDecorators.cfg')],
+    traces={'PubSubDecoratorsTrace': dict(module='PubSubDecoratorsTrace', cfg='PubSubDecoratorsTrace.cfg')},
+    rule='runs = (1) delay.Publisher: every batch of 1..3 messages over delay sources {metadata present, context delay (For / Until future / Until past / zero), none} x generator '
+         '{present, failing, absent} x AllowNoDelay x inner publisher {accept, error}; (2) every publisher-decorator stack of depth 1..3 over {transform, metrics, delay} x batch '
+         'size 1..3 x inner outcome, and every subscriber-decorator stack of depth 1..3 over {transform, metrics} with Ack/Nack propagated to the inner message; (3) Prometheus '
+         'router metrics applied once and twice x handler outcome sequences over {success, error, panic, publish failure}; counters gathered from a private registry vs. the '
+         "harness' own event counts; non-trivial = every run",
+    exhaustive=True,
+    min_stats={'delay_cases': 400, 'stack_cases': 200, 'metrics_cases': 20},
+    assumptions=['delayed_until has one-second resolution: the stamping instant is accepted within [-6 s, +2 s] of the call',
+                 'asynchronous subscriber counters are polled until complete (at most 3 s)'],
+)
